@@ -218,6 +218,11 @@ pub struct Gen {
     pub secs: u64,
     /// scripted fill / delete / refill cycles (C05): (state, cycles left, writes after full)
     pub cycle: Option<(u8, u8, u8)>,
+    /// scripted burst of creates in one directory (so that a directory grows and then fills its new cluster):
+    /// number of files still to create once the burst starts
+    pub burst_plan: Option<u8>,
+    /// (dir slot, file slot, files left, phase)
+    pub burst: Option<(u8, u8, u8, u8)>,
 }
 
 impl Gen {
@@ -245,7 +250,8 @@ impl Gen {
         let target_len = if rng.chance(3, 5) { rng.range(p.min_len as u64, ((p.min_len + p.max_len) / 2) as u64) as usize } else { rng.range(p.min_len as u64, p.max_len as u64) as usize };
         let cycle = if p.name == "C05" && rng.chance(1, 6) { Some((0u8, rng.range(3, 6) as u8, 0u8)) } else { None };
         let target_len = if cycle.is_some() { 400 } else { target_len };
-        Gen { rng, p, fresh: 0, target_len, secs: clock0, cycle }
+        let burst_plan = if cycle.is_none() && matches!(p.name, "C02" | "C03" | "C06" | "crash09" | "small") && rng.chance(1, 30) { Some(*rng.pick(&[20u8, 40, 70])) } else { None };
+        Gen { rng, p, fresh: 0, target_len, secs: clock0, cycle, burst_plan, burst: None }
     }
 
     fn fl(&mut self) -> u8 {
@@ -426,7 +432,49 @@ impl Gen {
         }
     }
 
+    fn next_burst(&mut self, w: &World) -> Option<Op> {
+        let (ds, fs, left, phase) = self.burst?;
+        if w.dslots.get(ds as usize).map_or(true, |s| s.cur.is_none()) {
+            self.burst = None;
+            return None;
+        }
+        match phase {
+            0 => {
+                if left == 0 || w.fslots.get(fs as usize).map_or(true, |s| s.cur.is_some()) {
+                    self.burst = None;
+                    return Some(Op::Iterate { ds, fl: 0, lfn: None, reent: None });
+                }
+                self.burst = Some((ds, fs, left, 1));
+                Some(Op::OpenFile { ds, name: format!("B{:05}.B", left), mode: 3, fs, fl: 0 })
+            }
+            _ => {
+                if w.fslots[fs as usize].cur.is_none() {
+                    // the create was refused (directory or volume full): the burst ends here
+                    self.burst = None;
+                    return Some(Op::Checkpoint);
+                }
+                self.burst = Some((ds, fs, left - 1, 0));
+                Some(Op::CloseFile { fs, fl: 0 })
+            }
+        }
+    }
+
     pub fn next(&mut self, w: &World) -> Option<Op> {
+        if self.burst.is_some() {
+            if let Some(op) = self.next_burst(w) {
+                return Some(op);
+            }
+        }
+        if let Some(k) = self.burst_plan {
+            if let (Some(ds), Some(fs)) = (Self::used_slot(&w.dslots, &mut self.rng), Self::free_slot(&w.fslots, &mut self.rng)) {
+                if self.rng.chance(1, 3) {
+                    self.burst_plan = None;
+                    self.burst = Some((ds, fs, k, 0));
+                    self.target_len += 2 * k as usize + 6;
+                    return self.next_burst(w);
+                }
+            }
+        }
         if self.cycle.is_some() {
             if let Some(op) = self.next_cycle(w) {
                 return Some(op);
